@@ -24,6 +24,12 @@ CLAIMED["C02"] = ("OpenSCAD's string lexer reads the library's escaped strings b
 CLAIMED["C03"] = ("PARTIAL. The ear-clipping loop is modelled exactly (same scan order, same predicates) and its output equals the crate's index list on every generated polygon; theorems about the model are listed in the evidence (loop invariants: indices, orientation of every emitted triangle, area conservation); completion for arbitrary simple polygons (Meisters' two-ears theorem for the remaining polygon, soundness of the later-vertices-only scan) and 'certificate implies no overlap' are plane-topology facts that are cited, not formalised. Every implementation result is checked against the tiling certificate (n-2 triangles, indices, winding, boundary edges once / diagonals twice, areas) by the Lean oracle.",
   "Exact arithmetic in the theorems; floating-point robustness is outside them (known finding: vertices within rounding distance of a chord). Polygon generators are simple by construction (convex, star-shaped, comb, spiral, staircase, the library's own outlines) x winding x list rotation x scale 1e-6..1e6 x 3D embeddings.",
   "Lean 4 model + loop-invariant theorems (partial) + Lean-executed tiling certificate as oracle + differential correspondence harness", "5/C03")
+CLAIMED["C07"] = ("PARTIAL. The generators are modelled expression by expression and equal the crate's output bit for bit on every generated argument set; point counts and per-point formulas are theorems about the model (see evidence), simplicity of star/rounded_rect outlines is the plane-geometry fact 'angularly monotone about an interior point implies simple', which is cited and checked per run by an O(n^2) segment test, not formalised. Oracles on implementation output: counts, radius kept / tangency / box and corner arcs, clockwise area, simplicity, and closed-oriented-outward linear extrusion.",
+  "Real arithmetic in theorems; libm = real functions; known findings: chamfer with oversize >= size self-intersects; near-degenerate chamfer outlines can defeat the floating-point ear test.",
+  "Lean 4 model + theorems (partial) + Lean-executed geometric oracles + differential correspondence harness", "5/C07")
+CLAIMED["C08"] = ("The Bezier functions, chain builders and bezier_star are modelled and equal the crate bit for bit over random control points, segment counts (every count 1..300 quick / 1..2000 thorough for the end-point law) and random histories new -> add* -> [close]; theorems about the model are listed in the evidence. Oracles on implementation output: segments+1 points, first/last point exactly the start/end point, de Casteljau points at i/segments, control box, 2D = 3D on planar input, chains pass through every knot in order with shared joints and continuous tangent direction, closed chains do not repeat the first point, bezier_star = BezierStar::new(..).gen_points().",
+  "Real arithmetic in theorems; the exact end-point law is stated from laws valid for finite IEEE doubles (0/n = 0, n/n = 1, x*1 = x, x*0 = 0, 0 + x = x).",
+  "Lean 4 model + theorems + Lean-executed oracles + differential correspondence harness", "5/C08")
 NOT_YET = {
 }
 ALL = ["C%02d" % i for i in range(1, 20)]
